@@ -82,6 +82,8 @@ def case_task(task):
             n = len(f.data_idxs())
         if kind == "emission":
             vals = emission_values(rng, n, D, G)
+        elif kind == "twins":
+            vals = [v.value for v in gen.make_data(rng, n, D, G, kind="twins")]
         else:
             vals = gen.make_values(rng, n, D, G, kind)
         data = [DataPoint(i, v, name="c02_%d_%d" % (c["id"], i)) for i, v in enumerate(vals)]
@@ -105,7 +107,10 @@ def case_task(task):
                     gen.build_tree(sub, data)
                     part.count("warm_up_forests")
             tree, names = gen.build_tree(f, data, child_order_rng=rng if c.get("shuffle") else None,
-                                         order=f.postorder(reverse_siblings=True) if c["id"] % 3 == 1 else None)
+                                         order=f.postorder(reverse_siblings=True) if c["id"] % 3 == 1 else None,
+                                         incremental_rng=rng if c.get("incremental") else None)
+            if c.get("incremental"):
+                part.count("incrementally_built_trees")
             vec = monitors.node_vectors(tree)
             root = np.array(tree.data_log_likelihood)
             part.count("evaluations")
@@ -181,7 +186,9 @@ def run(ctx):
     quick = ctx.tier == "quick"
     ctx.rule = ("(a) every forest shape on <=4 clones x G in {2,3,4,5} x D in {1,2} x data kinds against a brute-force sum "
                 "over all index assignments; (b) random forests up to 12 clones, up to 8 children, 1-6 top-level clones, "
-                "D 1-4, data flat / moderate / smooth / sharply peaked (depth 1e2-1e5) / real emission grids, "
+                "D 1-4, data flat / moderate / smooth / sharply peaked (depth 1e2-1e5) / real emission grids / mixed "
+                "scales (1e-3 .. 1e6) / bit-identical twins, built bottom-up or incrementally (points added one by one, "
+                "some by way of another clone), "
                 "G in {3,5,11,101} and {999,1000,1001,1201} straddling the direct/FFT switch, against the interval "
                 "recursion; distinct = (mode, grid, samples, data kind, canonical forest)")
     ctx.assumptions = ["floor constants 1e-100 / FFT switch at 1000 quoted by the property statement",
@@ -206,8 +213,8 @@ def run(ctx):
         f = gen.random_forest(rng, n, max_children=8, shape=[None, "star", "bushy", "chain", None][i % 5],
                               n_tops=[None, 1, 3, 6][i % 4])
         cases.append({"id": cid, "mode": "interval", "forest": f.describe(), "G": [3, 5, 11, 101][i % 4] if i % 10 else 21,
-                      "D": 1 + i % 4, "kind": ["flat", "moderate", "smooth", "peaked", "binom", "emission"][i % 6],
-                      "shuffle": bool(i % 2), "warm": bool(i % 3 == 0)})
+                      "D": 1 + i % 4, "kind": ["flat", "moderate", "smooth", "peaked", "binom", "emission", "scales", "twins"][i % 8],
+                      "shuffle": bool(i % 2), "warm": bool(i % 3 == 0), "incremental": bool(i % 5 in (1, 3))})
         cid += 1
     n_big = 12 if quick else 600
     for i in range(n_big):
